@@ -83,4 +83,6 @@ F72 a bound method taken from **kwargs
 F73 the element of a comprehension is evaluated once per item
 F74 a positional argument written after *args
 F75 annotate applied over a modifier also updates the bound wrappers
+F76 an attribute the function assigns is unknown also where it is passed on
+F77 annotations that functools.wraps handed over to a wrapper
 LIST
